@@ -311,7 +311,22 @@ func propertyStoreRules(c *core.Ctx, r *core.Report, rule string) {
 	ip := absint.New(t)
 	ip.IsLog, ip.InScope = core.IsLogCall, c.InScope
 	m := absint.NewTok("meta", "meta")
-	m.Fields["propertyGroup"] = &absint.MapVal{M: map[string]absint.Value{}}
+	// the definition as its constructor leaves it: every map it keeps (itself or in a part of its own package) is made
+	var mkMaps func(st *types.Struct, depth int)
+	mkMaps = func(st *types.Struct, depth int) {
+		for i := 0; st != nil && i < st.NumFields(); i++ {
+			f := st.Field(i)
+			switch u := f.Type().Underlying().(type) {
+			case *types.Map:
+				m.Fields[f.Name()] = &absint.MapVal{M: map[string]absint.Value{}}
+			case *types.Struct:
+				if n, ok := f.Type().(*types.Named); ok && n.Obj().Pkg() == meta.Obj().Pkg() && depth < 2 {
+					mkMaps(u, depth+1)
+				}
+			}
+		}
+	}
+	mkMaps(core.StructOf(meta), 0)
 	mk := func(id, ptype, tag, field string) *absint.Tok {
 		p := absint.NewTok(id, "property")
 		fld, sf := absint.NewTok(id+".Field", "field"), absint.NewTok(id+".Field.StructField", "structfield")
